@@ -126,6 +126,22 @@ func (s *Sim) Do(pid, kind string, arg int64) error {
 func (s *Sim) StartFirst(participants []string) bool {
 	s.Drain()
 	s.backlog = nil
+	if !s.FirstGame && s.Cfg.Mode == pokertable.CompetitionMode_MTT {
+		// MTT tables start by themselves (from the auto-join group's goroutine) once every
+		// reserved player has sat in and two of them have chips; give that a moment
+		now := s.Now()
+		allIn := len(now.State.PlayerStates) >= 2
+		for _, p := range now.State.PlayerStates {
+			if !p.IsIn {
+				allIn = false
+			}
+		}
+		if allIn && len(AlivePlayers(now)) >= 2 && now.State.BlindState.Level > 0 {
+			if ev := s.waitForD(1500*time.Millisecond, func(ev *Event) bool { return ev.Kind == "firstgame" }); ev != nil {
+				s.Label("mtt_auto_start")
+			}
+		}
+	}
 	if !s.FirstGame {
 		if err := s.API.StartTableGame(); err != nil {
 			s.Stall = "StartTableGame: " + err.Error()
@@ -134,6 +150,9 @@ func (s *Sim) StartFirst(participants []string) bool {
 		if ev := s.waitForD(s.StepWait, func(ev *Event) bool { return ev.Kind == "firstgame" }); ev == nil {
 			s.Stall = "no first-game callback"
 			return false
+		}
+		if s.Cfg.Mode == pokertable.CompetitionMode_MTT {
+			s.Label("mtt_manual_start")
 		}
 	}
 	s.FirstGame = false
@@ -230,7 +249,7 @@ func (s *Sim) PlayHand(plan SignalPlan) *Hand {
 	// wait for the opened snapshot; meanwhile watch the seat manager: a refused
 	// init/rotation means the engine entered its 3 s x 10 retry loop (holding its lock)
 	smLo := s.SM.NumCalls()
-	deadline := time.Now().Add(s.openWait(plan))
+	deadline := time.Now().Add(s.openWait(plan) + s.OpenWaitExtra)
 	var ev *Event
 	for ev == nil && time.Now().Before(deadline) {
 		ev = s.waitForD(50*time.Millisecond, func(ev *Event) bool {
